@@ -47,6 +47,9 @@ pub struct RefRun {
     pub cycle_events: usize,
     /// For `Diverges`: index into events where the detected cycle was entered (snapshot point).
     pub cycle_start_events: usize,
+    /// For `Halt`: where the pointer ends and which cells are non-zero then (full-width values).
+    pub final_ptr: i64,
+    pub final_tape: Vec<(i64, u64)>,
 }
 
 pub fn ev_string(evs: &[Ev]) -> String {
@@ -182,6 +185,8 @@ pub fn run_opts(code: &str, input: &[u8], bits: u32, max_steps: u64, detect_cycl
         max_depth: 0,
         cycle_events: 0,
         cycle_start_events: 0,
+        final_ptr: 0,
+        final_tape: vec![],
     };
     let (mut ptr, mut ip, mut pc) = (0i64, 0usize, 0usize);
     let mut depth = 0u32;
@@ -276,7 +281,54 @@ pub fn run_opts(code: &str, input: &[u8], bits: u32, max_steps: u64, detect_cycl
         pc += 1;
     }
     r.fate = Fate::Halt;
+    r.final_ptr = ptr;
+    r.final_tape = tape.snapshot();
     r
+}
+
+/// Brainfuck text that, appended to a halting program, takes the value the canonical run leaves in
+/// each (non-zero, small in magnitude) cell out again and counts the cells in which anything is
+/// left; it ends by printing that count - 0 under canonical semantics at this width. `.` shows
+/// only the low 8 bits of a cell; this makes all the others observable.
+pub fn probe_epilogue(r: &RefRun, bits: u32) -> Option<String> {
+    if r.fate != Fate::Halt || r.final_tape.is_empty() {
+        return None;
+    }
+    let modulus: u128 = 1u128 << bits;
+    let flag = r.max_ptr + 2;
+    let mut s = String::new();
+    let mut cur = r.final_ptr;
+    let mut go = |s: &mut String, cur: &mut i64, to: i64| {
+        let d = to - *cur;
+        for _ in 0..d.abs() {
+            s.push(if d > 0 { '>' } else { '<' })
+        }
+        *cur = to;
+    };
+    let mut probed = 0;
+    for &(cell, v) in r.final_tape.iter().take(40) {
+        let up = (modulus - v as u128) as u64; // number of '+' that bring the cell back to 0
+        let (ch, n) = if (v as u128) <= up as u128 { ('-', v) } else { ('+', up) };
+        if n > 600 {
+            continue;
+        }
+        go(&mut s, &mut cur, cell);
+        for _ in 0..n {
+            s.push(ch)
+        }
+        s.push_str("[[-]");
+        go(&mut s, &mut cur, flag);
+        s.push('+');
+        go(&mut s, &mut cur, cell);
+        s.push(']');
+        probed += 1;
+    }
+    if probed == 0 || s.len() > 20_000 {
+        return None;
+    }
+    go(&mut s, &mut cur, flag);
+    s.push('.');
+    Some(s)
 }
 
 #[cfg(test)]
